@@ -4,6 +4,7 @@ import (
 	"fmt"
 	"os"
 	"path/filepath"
+	"strconv"
 	"strings"
 )
 
@@ -121,4 +122,70 @@ func sdkSnapshot(res *RunResult) {
 		}
 	}
 	res.Notes = append(res.Notes, fmt.Sprintf("SDK assignment snapshot: %d entries compared", compared))
+}
+
+// constructorInvalids: for every lookup entry of every known message, the message constructor must
+// leave the struct field the entry designates at the invalid value of the entry's type (the
+// decoder relies on it for "field absent", the encoder for "do not write").
+func constructorInvalids(res *RunResult) {
+	checked, total := 0, 0
+	for _, m := range theFacts().Msgs {
+		if !m.Known {
+			continue
+		}
+		inv := invalidVals(m.Num)
+		for _, f := range m.Fields {
+			total++
+			if f[0] >= len(inv) {
+				continue
+			}
+			want, ok := expectedInvalidText(f[2])
+			if !ok {
+				continue
+			}
+			checked++
+			if inv[f[0]] != want {
+				name := ""
+				if f[0] < len(m.FNames) {
+					name = m.FNames[f[0]]
+				}
+				addViolation(res, fmt.Sprintf("constructor New%s field %d (%s)", m.Name, f[1], name), inv[f[0]],
+					fmt.Sprintf("New%s() leaves %s at %s; the invalid value of the entry's type (code %d) is %s", m.Name, name, inv[f[0]], f[2], want))
+			}
+		}
+	}
+	res.Notes = append(res.Notes, fmt.Sprintf("constructor invalid values: %d of %d (message, field) entries compared with their type's invalid value", checked, total))
+	if checked != total {
+		addViolation(res, "constructor-invalids", fmt.Sprint(checked), "some profile entries could not be checked against their constructor")
+	}
+}
+
+func expectedInvalidText(tcode int) (string, bool) {
+	switch tcKind(tcode) {
+	case 1, 2:
+		return "t0/0/0", true // timeBase, UTC
+	case 3:
+		return "a2147483647", true
+	case 4:
+		return "o2147483647", true
+	case 0:
+	default:
+		return "", false
+	}
+	if tcArray(tcode) {
+		return "n", true
+	}
+	bt := tcBase(tcode)
+	switch {
+	case bt == 0x07:
+		return "s", true
+	case btFloat[bt]:
+		return "", false
+	case btSigned[bt]:
+		return "i" + strconv.FormatUint(btInvalidRaw(bt), 10), true
+	}
+	if _, ok := btSize[bt]; !ok {
+		return "", false
+	}
+	return "u" + strconv.FormatUint(btInvalidRaw(bt), 10), true
 }
